@@ -1142,3 +1142,50 @@ def r15(R):
     R.count(stats)
     for v in vs:
         R.violation(v.node, v.message, g, v.path)
+
+
+# ----------------------------------------------------------------- C13.R16
+@rule('C13.R16', 'whether a record is a blob record is decided on its '
+      'UNTRANSFORMED bytes only: under a transforming wrapper (compression, '
+      'hex) the stored bytes say nothing', props=['C06', 'C17'],
+      min_instances=1)
+def r16(R):
+    mix = R.prog.cls('ZODB.blob.BlobStorageMixin')
+    f = R.method(mix, 'is_blob_record')
+    rec = [p for p in f.params if p != 'self'][0]
+    parents = {}
+    for p in ast.walk(f.node):
+        for c in ast.iter_child_nodes(p):
+            parents[id(c)] = p
+    n = 0
+    for x in ast.walk(f.node):
+        if not (isinstance(x, ast.Name) and x.id == rec and isinstance(
+                x.ctx, ast.Load)):
+            continue
+        n += 1
+        p = parents.get(id(x))
+        # allowed: the truth of the record, and the untransform call
+        if isinstance(p, (ast.If, ast.While, ast.IfExp)) and p.test is x:
+            continue
+        if isinstance(p, ast.UnaryOp) and isinstance(p.op, ast.Not):
+            continue
+        if isinstance(p, ast.BoolOp):
+            continue
+        if isinstance(p, ast.Compare) and len(p.ops) == 1 and isinstance(
+                p.ops[0], (ast.Is, ast.IsNot)):
+            continue
+        if isinstance(p, ast.Call) and isinstance(p.func, ast.Attribute) \
+                and 'untransform' in p.func.attr and x in p.args:
+            continue
+        R.violation(
+            (f.module.relpath, f.qualname,
+             ' '.join(ast.unparse(p).split())[:80], x.lineno),
+            'BlobStorageMixin.is_blob_record looks at the stored bytes of '
+            'the record (`%s`) instead of its untransformed bytes: under a '
+            'transforming wrapper no record is recognised as a blob record '
+            '-- undo of a blob change copies no blob file, the check for a '
+            'later blob change is skipped, a copy loses the blob files' %
+            ' '.join(ast.unparse(p).split())[:60],
+            key='stored bytes of the record inspected')
+    R.instance('BlobStorageMixin.is_blob_record', uses_of_record=n)
+    R.require(n >= 1, 'is_blob_record no longer looks at its record')
